@@ -376,4 +376,207 @@ theorem counted_classify (z : Bool) (ns : List Bool) (c : Counted) (nuc : Bool) 
   simp only [classify, hl, hz, h1, List.take_length, hf]
   simp
 
+/-! ## the multiply shortcut  `<x>m`  for every `Real` spelling x (5.2: Multiply ::= Real "M") -/
+
+theorem expm_numTail (x : ExpSp) : numTail (x.ks ++ [K.m]) = x.ks.length := by
+  cases x with
+  | none => simp [ExpSp.ks, numTail, cntS, skipS, K.isSign]
+  | letter sg z ds => cases sg with
+    | none => simp [ExpSp.ks, numTail, signK, cntS, skipS, K.isSign]; omega
+    | some b => cases b <;> simp [ExpSp.ks, numTail, signK, cntS, skipS, K.isSign] <;> omega
+  | bare mn z ds => cases mn <;> simp [ExpSp.ks, numTail, cntS, skipS, K.isSign] <;> omega
+
+theorem expm_optExp (x : ExpSp) : optExp (x.ks ++ [K.m]) = x.ks.length := by
+  cases x with
+  | none => simp [ExpSp.ks, optExp]
+  | letter sg z ds => cases sg with
+    | none => simp [ExpSp.ks, optExp, signK, cntS, skipS, K.isSign]; omega
+    | some b => cases b <;> simp [ExpSp.ks, optExp, signK, cntS, skipS, K.isSign] <;> omega
+  | bare mn z ds => cases mn <;> simp [ExpSp.ks, optExp] <;> omega
+
+theorem expm_cntD (x : ExpSp) : cntD (x.ks ++ [K.m]) = 0 := by
+  cases x with
+  | none => rfl
+  | letter sg z ds => rfl
+  | bare mn z ds => cases mn <;> rfl
+
+theorem expm_skipD (x : ExpSp) : skipD (x.ks ++ [K.m]) = x.ks ++ [K.m] := by
+  cases x with
+  | none => rfl
+  | letter sg z ds => rfl
+  | bare mn z ds => cases mn <;> rfl
+
+theorem mantm_mantissa (mant : MantSp) (x : ExpSp) : mantissa (mant.ks ++ (x.ks ++ [K.m])) = some mant.ks.length := by
+  cases mant with
+  | int z ip =>
+    cases x with
+    | none => simp [MantSp.ks, mantissa, ExpSp.ks]
+    | letter sg z' ds => simp [MantSp.ks, mantissa, ExpSp.ks]
+    | bare mn z' ds => cases mn <;> simp [MantSp.ks, mantissa, ExpSp.ks]
+  | intDot z ip fp => simp [MantSp.ks, mantissa, expm_cntD]; omega
+  | dotFrac z fp => simp [MantSp.ks, mantissa, expm_cntD]; omega
+
+theorem drop_length_append {α : Type} (a b : List α) : (a ++ b).drop a.length = b := List.drop_left
+
+/-- `_parse_shortcut` recognises `<x>m` as MULTIPLY -/
+theorem mult_isMultiply (x : RealSp) : isMultiply (x.ks ++ [K.m]) = true := by
+  obtain ⟨sg, mant, ex⟩ := x
+  have hsk := (skipS_mant sg mant (ex.ks ++ [K.m])).1
+  simp only [isMultiply, RealSp.ks, List.append_assoc, hsk, mantm_mantissa, drop_length_append, expm_numTail]
+  simp
+
+/-- the part of `<x>m` after its leading digits still ends in `m`: it is none of `i`, `j`, `log`, `ilog` -/
+theorem skipD_append_m (a : List K) : skipD (a ++ [K.m]) = skipD a ++ [K.m] := by
+  induction a with
+  | nil => rfl
+  | cons k t ih => cases k <;> simp [skipD, ih]
+
+theorem ends_m_ne (l : List K) (t : List K) (ht : t.getLast? ≠ some K.m) : (l ++ [K.m] == t) = false := by
+  have : l ++ [K.m] ≠ t := by
+    intro h
+    apply ht
+    rw [← h]; simp
+  simpa using this
+
+theorem mult_numberWordFn (x : RealSp) : numberWordFn (x.ks ++ [K.m]) = "NUM_MULTIPLY" := by
+  simp only [numberWordFn, parseShortcut, skipD_append_m, mult_isMultiply]
+  rw [ends_m_ne _ [K.i] (by decide), ends_m_ne _ [K.j] (by decide), ends_m_ne _ [K.l, K.o, K.g] (by decide),
+    ends_m_ne _ [K.i, K.l, K.o, K.g] (by decide)]
+  rfl
+
+
+theorem mult_nw2 (x : RealSp) : matchNW2 (x.ks ++ [K.m]) = some (x.ks ++ [K.m]).length := by
+  obtain ⟨sg, mant, ex⟩ := x
+  have hsk := skipS_mant sg mant (ex.ks ++ [K.m])
+  simp only [matchNW2, RealSp.ks, List.append_assoc, hsk.1, hsk.2, mantm_mantissa, drop_length_append, expm_optExp]
+  simp [headIsLetter]; omega
+
+theorem mult_nw1 (x : RealSp) (n : Nat) (h : matchNW1 (x.ks ++ [K.m]) = some n) : n = (x.ks ++ [K.m]).length := by
+  obtain ⟨sg, mant, ex⟩ := x
+  have hsk := skipS_mant sg mant (ex.ks ++ [K.m])
+  simp only [matchNW1, RealSp.ks, List.append_assoc, hsk.1, hsk.2] at h
+  cases mant with
+  | int z ip =>
+    cases ex with
+    | none =>
+      simp [MantSp.ks, ExpSp.ks, cntL, K.isLetter, expGuard] at h
+      simp [RealSp.ks, MantSp.ks, ExpSp.ks]; omega
+    | letter sg' z' ds =>
+      cases sg' with
+      | none => simp [MantSp.ks, ExpSp.ks, signK, expGuard, skipS, headIsDig, K.isDig, K.isSign] at h
+      | some b => cases b <;> simp [MantSp.ks, ExpSp.ks, signK, expGuard, skipS, headIsDig, K.isDig, K.isSign] at h
+    | bare mn z' ds => cases mn <;> simp [MantSp.ks, ExpSp.ks, cntL, K.isLetter] at h
+  | intDot z ip fp => simp [MantSp.ks, cntL, K.isLetter] at h
+  | dotFrac z fp => simp [MantSp.ks] at h
+
+/-- the only `<x>m` the ZAID rule takes: `dddd.ddm` … `dddddd.ddm` without sign and exponent -/
+def zaidShaped (x : RealSp) : Bool :=
+  match x.sign, x.mant, x.exp with
+  | none, .intDot _ ip [_, _], .none => decide (3 ≤ ip.length) && decide (ip.length ≤ 5)
+  | _, _, _ => false
+
+theorem mult_zaid (x : RealSp) :
+    matchZaid (x.ks ++ [K.m]) = if zaidShaped x then some (x.ks ++ [K.m]).length else none := by
+  obtain ⟨sg, mant, ex⟩ := x
+  cases sg with
+  | some b => cases b <;> simp [RealSp.ks, signK, matchZaid, zaidShaped]
+  | none =>
+    cases mant with
+    | dotFrac z fp => simp [RealSp.ks, signK, MantSp.ks, matchZaid, zaidShaped]
+    | int z ip =>
+      simp only [RealSp.ks, signK, MantSp.ks, List.nil_append, List.append_assoc, matchZaid, skipD_digs_append,
+        expm_skipD, zaidShaped]
+      cases ex with
+      | none => simp [ExpSp.ks]
+      | letter sg z ds => simp [ExpSp.ks]
+      | bare mn z ds => cases mn <;> simp [ExpSp.ks]
+    | intDot z ip fp =>
+      simp only [RealSp.ks, signK, MantSp.ks, List.nil_append, List.append_assoc, List.cons_append, matchZaid,
+        skipD_digs_append, skipD_dot, zaidShaped]
+      match fp with
+      | [] =>
+        cases ex with
+        | none => simp [ExpSp.ks]
+        | letter sg z ds => simp [ExpSp.ks]
+        | bare mn z ds => cases mn <;> simp [ExpSp.ks]
+      | [a] =>
+        cases ex with
+        | none => simp [ExpSp.ks]
+        | letter sg z ds => simp [ExpSp.ks]
+        | bare mn z ds => cases mn <;> simp [ExpSp.ks]
+      | [a, b] =>
+        cases ex with
+        | none =>
+          simp [ExpSp.ks, K.isLetter, expGuard, expm_cntD]
+        | letter sg z ds =>
+          cases sg with
+          | none => simp [ExpSp.ks, signK, expGuard, skipS, headIsDig, K.isDig, K.isSign, K.isLetter]
+          | some c => cases c <;> simp [ExpSp.ks, signK, expGuard, skipS, headIsDig, K.isDig, K.isSign, K.isLetter]
+        | bare mn z ds => cases mn <;> simp [ExpSp.ks, K.isLetter, K.isDig]
+      | [a, b, c] =>
+        cases ex with
+        | none => simp [ExpSp.ks, K.isLetter, K.isDig, headIsLetter]
+        | letter sg z ds =>
+          cases sg with
+          | none => simp [ExpSp.ks, signK, K.isLetter, K.isDig, headIsLetter]
+          | some c => cases c <;> simp [ExpSp.ks, signK, K.isLetter, K.isDig, headIsLetter]
+        | bare mn z ds => cases mn <;> simp [ExpSp.ks, K.isLetter, K.isDig, headIsLetter]
+      | a :: b :: c :: d :: fp' => simp [K.isLetter, K.isDig, headIsLetter]
+
+
+theorem zaidShaped_inv (x : RealSp) (h : zaidShaped x = true) :
+    ∃ z ip a b, x = ⟨none, .intDot z ip [a, b], .none⟩ := by
+  obtain ⟨sg, mant, ex⟩ := x
+  cases sg with
+  | some b => simp [zaidShaped] at h
+  | none =>
+    cases mant with
+    | int z ip => simp [zaidShaped] at h
+    | dotFrac z fp => simp [zaidShaped] at h
+    | intDot z ip fp =>
+      cases ex with
+      | letter sg z ds => simp [zaidShaped] at h
+      | bare mn z ds => simp [zaidShaped] at h
+      | none =>
+        match fp with
+        | [] => simp [zaidShaped] at h
+        | [a] => simp [zaidShaped] at h
+        | [a, b] => exact ⟨z, ip, a, b, rfl⟩
+        | a :: b :: c :: fp' => simp [zaidShaped] at h
+
+/-- **Every `<x>m` with x a spelling of G's `Real` rule is one multiply-shortcut token** — except the documented
+    context-dependent case: `dddd.ddm` on an input that lists nuclides is a ZAID (MontePy 0a90ce7). -/
+theorem mult_classify (x : RealSp) (nuc : Bool) :
+    classify nuc (x.ks ++ [K.m]) =
+      some (if zaidShaped x && nuc then "ZAID" else "NUM_MULTIPLY", (x.ks ++ [K.m]).length) := by
+  have hl : headIsLetter (x.ks ++ [K.m]) = false := by
+    obtain ⟨sg, mant, ex⟩ := x
+    cases sg with
+    | none => cases mant <;> simp [RealSp.ks, signK, MantSp.ks, headIsLetter, K.isLetter]
+    | some b => cases b <;> simp [RealSp.ks, signK, headIsLetter, K.isLetter]
+  have hm := mult_zaid x
+  have hw := mult_numberWordFn x
+  have h2 := mult_nw2 x
+  have h1 := mult_nw1 x
+  cases hz : zaidShaped x with
+  | true =>
+    have hzf : zaidFn nuc (x.ks ++ [K.m]) = if nuc then "ZAID" else "NUM_MULTIPLY" := by
+      obtain ⟨z, ip, a, b, rfl⟩ := zaidShaped_inv x hz
+      cases nuc <;> simp [zaidFn, RealSp.ks, signK, MantSp.ks, ExpSp.ks, K.isDig, List.reverse_append]
+    rw [hz] at hm
+    generalize x.ks ++ [K.m] = s at *
+    simp only [classify, hl, hm, if_true, List.take_length, hzf, Bool.true_and]
+    cases nuc <;> simp
+  | false =>
+    rw [hz] at hm
+    generalize x.ks ++ [K.m] = s at *
+    simp only [classify, hl, hm]
+    cases h1' : matchNW1 s with
+    | some n =>
+      have := h1 n h1'
+      subst this
+      simp [List.take_length, hw]
+    | none =>
+      simp [h2, List.take_length, hw]
+
 end MontePyVerif.LexNum
